@@ -149,6 +149,10 @@ func writeCollection(ext extractor, elementCodec Codec, size int, version primit
 					// we are returning an error
 					return nil, collectionElementNil()
 				}
+				if len(encodedElem) > math.MaxUint16 {
+					// Protocol V2 writes the length of a collection element as an unsigned short
+					return nil, collectionElementTooLarge(len(encodedElem), math.MaxUint16)
+				}
 				_ = primitive.WriteShortBytes(encodedElem, buf)
 			}
 		}
